@@ -217,3 +217,67 @@ Example unreadable_ex :
   snd (require 2 s 0) = Ok (VStr 0) /\ newlog s (fst (require 2 s 0)) = [(0, OFile 1)] /\
   snd (require 2 (set_file init 0 0 (Some FUnreadable)) 0) = Err (ENotFound 0 [TPre 0; TPath 0 0; TPath 1 0]).
 Proof. repeat split. Qed.
+
+(* ---- wave 5: coroutine boundaries, re-bound package.preload ---- *)
+(* module 8's loader re-requires 8 inside a coroutine: the hypotheses of loop_error_across_coroutines *)
+Example loop_across_coroutine_ex :
+  let s := set_preload init 8 (Some (mkLoader KLua [Require TCo 8; Return (ETab 0)])) in
+  truthy (loaded s 8) = false /\
+  search loLoaders s 8 [] = inr (OPre, KLua, [Require TCo 8; Return (ETab 0)]) /\
+  snd (require 2 s 8) = Err (ELoop 8) /\ loaded (fst (require 2 s 8)) 8 = VSent.
+Proof. repeat split. Qed.
+
+(* `ex` has loaders with cross-coroutine requires (0, 5, 6): stripping them is a different state
+   with the same behaviour *)
+Example thread_transparent_ex :
+  option_map lscript (preload ex 0) = Some [PRequire TCo 1; Return (ETab 0)] /\
+  option_map lscript (preload (strip_state ex) 0) = Some [PRequire TSame 1; Return (ETab 0)] /\
+  snd (require 4 (strip_state ex) 4) = snd (require 4 ex 4) /\
+  snd (require 4 ex 4) = Err (ELoop 4) /\
+  snd (require 3 (strip_state ex) 0) = Ok (VTab 0 0).
+Proof. repeat split. Qed.
+
+(* module 2 has a file in directory 0 and a Go preload entry; the script replaces package.preload
+   keeping only module 0's entry, then the host registers a new loader for 2: it runs, not the file *)
+Example preload_after_rebind_ex :
+  let s1 := fst (run 1 ex [HNewPreload [0]; HSetPreload 2 (Some (mkLoader KGo [Return (EStr 1)]))]) in
+  truthy (loaded ex 2) = false /\ files ex 0 2 <> None /\
+  snd (require 1 s1 2) = Ok (VStr 1) /\ newlog s1 (fst (require 1 s1 2)) = [(2, OPre)].
+Proof. repeat split. discriminate. Qed.
+
+(* not kept: 2's old entry is gone and the file in directory 0 is loaded; kept: 0's entry still runs;
+   cached: ex1 has module 0 loaded, it survives the replacement *)
+Example rebind_ex :
+  let s1 := new_preload ex [0] in
+  memz 2 [0] = false /\ memz 0 [0] = true /\ preload ex 2 <> None /\
+  newlog s1 (fst (require 1 s1 2)) = [(2, OFile 0)] /\ snd (require 1 s1 2) = Ok (VStr 0) /\
+  newlog s1 (fst (require 3 s1 0)) = [(0, OPre); (1, OFile 1)] /\
+  snd (require 1 (new_preload ex [0]) 6) = Err (ENotFound 6 [TPre 6; TPath 0 6; TPath 1 6]) /\
+  truthy (loaded ex1 0) = true /\ is_sent (loaded ex1 0) = false /\
+  require 1 (new_preload ex1 []) 0 = (new_preload ex1 [], Ok (VTab 0 0)).
+Proof. repeat split. discriminate. Qed.
+
+(* the evaluator on a history of the C20-10 shape: what today's code does, and what a PreloadModule
+   writing into the orphaned table shows instead *)
+Definition rebind_case : case :=
+  CHist [HSetFile 0 0 (Some (FScript [Return (EStr 1)])); HNewPreload [];
+         HSetPreload 0 (Some (mkLoader KGo [Return (EStr 0)])); HRequire 0]
+        [ONone; ONone; ONone; ORes (Ok (VStr 0)) [(0, OPre)]].
+Definition rebind_case_orphaned : case :=
+  CHist [HSetFile 0 0 (Some (FScript [Return (EStr 1)])); HNewPreload [];
+         HSetPreload 0 (Some (mkLoader KGo [Return (EStr 0)])); HRequire 0]
+        [ONone; ONone; ONone; ORes (Ok (VStr 1)) [(0, OFile 0)]].
+(* ... and of the C20-9 shape: the sentinel handed out as a value across a coroutine *)
+Definition co_loop_case : case :=
+  CHist [HSetPreload 0 (Some (mkLoader KLua [Require TCo 0])); HRequire 0; HGetLoaded 0]
+        [ONone; ORes (Err (ELoop 0)) [(0, OPre)]; OVal VSent].
+Definition co_loop_case_missed : case :=
+  CHist [HSetPreload 0 (Some (mkLoader KLua [Require TCo 0])); HRequire 0; HGetLoaded 0]
+        [ONone; ORes (Ok VTrue) [(0, OPre)]; OVal VTrue].
+
+Example wave5_evaluator_ex :
+  check_impl rebind_case = true /\ check_spec rebind_case = true /\
+  check_spec rebind_case_orphaned = false /\
+  check_impl co_loop_case = true /\ check_spec co_loop_case = true /\
+  check_spec co_loop_case_missed = false.
+Proof. repeat split; vm_compute; reflexivity. Qed.
